@@ -336,6 +336,10 @@ def apply_fixes(
                 max_parse_depth=max_parse_depth,
                 max_parse_nodes=max_parse_nodes,
             )
+        else:
+            # There's nothing to validate against here (e.g. a BracketedSegment),
+            # so hand the validation request on to the parent segment.
+            validated = False
     else:
         validated = not requires_validate
     # Return the new segment and any non-code that needs to bubble up
